@@ -397,7 +397,7 @@ func main() {
 		}
 		ctx.Finish("replay", assumptions)
 	}
-	if dir := os.Getenv("VERIF_CORPUS"); dir != "" {
+	if dir := os.Getenv("VERIF_CORPUS"); dir != "" && !cg.IsWorker() {
 		files, _ := filepath.Glob(filepath.Join(dir, "*.json"))
 		sort.Strings(files)
 		for _, f := range files {
@@ -414,11 +414,23 @@ func main() {
 			}
 		}
 	}
-	scoreZeroScenario(ctx)
 	r := hx.NewRand(ctx.Seed)
 	n := ctx.Scale(360, 3000)
+	if ctx.Thorough() && !cg.IsWorker() {
+		// bounded memory per process (see chaingen/shard.go) and parallel shards
+		scoreZeroScenario(ctx)
+		cg.RunShards(ctx, n, 150, 6)
+		ctx.Finish(rule, assumptions)
+	}
+	if !cg.IsWorker() {
+		scoreZeroScenario(ctx)
+	}
 	for i := 0; i < n && len(ctx.Violations) == 0; i++ {
-		runChain(ctx, cg.GenSpec(r.Fork(uint64(i)), 24), 0, true)
+		rr := r.Fork(uint64(i))
+		if !cg.InShard(i) {
+			continue
+		}
+		runChain(ctx, cg.GenSpec(rr, 24), 0, true)
 	}
 	ctx.Finish(rule, assumptions)
 }
